@@ -1,5 +1,7 @@
 import RV.C18.Lemmas
 import RV.C18.TwoWrappers
+import RV.C18.XLemmas
+import RV.C18.XTwo
 /-
   C18 — property theorems (statements first, as `def … : Prop`, then the proofs).
 
@@ -187,6 +189,573 @@ theorem buggy_add_breaks_rollback :
         [(1, 2, 3, 9)] := by
   intro h
   have := (h (1, 2, 3, 9)).2 (by simp)
+  revert this
+  decide
+
+/-! ## Round g — the code of `auditable.py` branch by branch (`XModel.lean`)
+
+  The wrapper's `add` / `remove` / `rollback` as written (presence tests through `store.triples`, the
+  three branches of `remove` with their different enumerations of the quads to log, early returns,
+  replay through `store.add` / `store.remove`), the pass-through methods (`bind`, `open`, `close`,
+  `destroy`, `query`: `XOp.bind`, `XOp.pass`; the reads are pure functions of the state), and a wrapper
+  over a wrapper. -/
+
+/-- The specification, extended by what the statement does NOT make transactional: namespace bindings
+    go straight to the wrapped store and stay there whatever happens to the transaction. -/
+structure SpecX where
+  base : List Quad
+  cur : List Quad
+  b : Binds
+
+def SpecX.step (s : SpecX) : XCmd → SpecX
+  | .op (.add q) => { s with cur := sinsert s.cur q }
+  | .op (.remove p) => { s with cur := s.cur.filter (fun q => !p.matches q) }
+  | .op (.bind a n o) => { s with b := s.b.bind a n o }
+  | .op .pass => s
+  | .commit => { s with base := s.cur }
+  | .rollback => { s with cur := s.base }
+
+def SpecX.run (s : SpecX) (cs : List XCmd) : SpecX := cs.foldl SpecX.step s
+
+/-- Every history over the extended operation set, boundaries anywhere, graph names that a `Graph` can
+    carry: the wrapped store holds exactly the quads the snapshot specification says, and exactly the
+    bindings the (non-transactional) specification says. -/
+def Statement_code_history_refines_spec : Prop :=
+  ∀ (m0 : Mem) (cs : List XCmd), m0.cur.Nodup → (∀ c ∈ cs, c.wellNamed = true) →
+    SetEq (XW.run ⟨m0, []⟩ cs).m.cur (SpecX.run ⟨m0.cur, m0.cur, m0.b⟩ cs).cur ∧
+    (XW.run ⟨m0, []⟩ cs).m.b = (SpecX.run ⟨m0.cur, m0.cur, m0.b⟩ cs).b
+
+/-- `rollback()` after any history of adds, removes of every shape, binds and pass-through calls:
+    the quads are those of the beginning, the log is empty, and every read through the wrapper
+    (`triples(pattern, context)` with the graphs of each triple, `__len__(context)`) answers as at the
+    beginning. -/
+def Statement_code_rollback_restores : Prop :=
+  ∀ (m0 : Mem) (ops : List XOp), m0.cur.Nodup → (∀ o ∈ ops, o.wellNamed = true) →
+    let s := (XW.run ⟨m0, []⟩ (ops.map .op)).rollback
+    SetEq s.m.cur m0.cur ∧ s.log = [] ∧
+    (∀ (p : Pat) (t : Triple) (g : Nat),
+      (∃ cs, (t, cs) ∈ memTriples s.m.cur p ∧ g ∈ cs) ↔ (∃ cs, (t, cs) ∈ memTriples m0.cur p ∧ g ∈ cs)) ∧
+    (∀ g, memLen s.m.cur g = memLen m0.cur g)
+
+/-- `commit()` keeps the wrapped store as it is; a rollback after a commit or a rollback is a no-op;
+    `bind` and the pass-through calls touch neither the quads nor the log, and neither `add`, `remove`,
+    `commit` nor `rollback` touches the bindings. -/
+def Statement_code_boundaries_and_frames : Prop :=
+  ∀ (s : XW),
+    (s.commit.m = s.m ∧ s.commit.log = []) ∧
+    (s.commit.rollback = s.commit ∧ s.rollback.rollback = s.rollback) ∧
+    (∀ a n o, (s.step (.bind a n o)).m.cur = s.m.cur ∧ (s.step (.bind a n o)).log = s.log) ∧
+    (s.step .pass = s) ∧
+    (∀ q, (s.add q).m.b = s.m.b) ∧ (∀ p, (s.remove p).m.b = s.m.b) ∧ s.rollback.m.b = s.m.b
+
+/-- The abstract model of rounds 1–f (`W`, one enumeration order, no early returns) and the code-shaped
+    model hold the same quads after every history. -/
+def Statement_code_model_agrees_with_abstract : Prop :=
+  ∀ (init : List Quad) (cs : List Cmd), init.Nodup →
+    (∀ c ∈ cs, (match c with | .op (.remove p) => p.wellNamed | _ => true) = true) →
+    SetEq (XW.run ⟨{ cur := init }, []⟩ (cs.map (fun c => match c with
+        | .op (.add q) => XCmd.op (.add q)
+        | .op (.remove p) => XCmd.op (.remove p)
+        | .commit => XCmd.commit
+        | .rollback => XCmd.rollback))).m.cur
+      (W.runCmds ⟨init, []⟩ cs).cur
+
+structure SimX (s : XW) (sp : SpecX) : Prop where
+  cur : SetEq s.m.cur sp.cur
+  inv : Inv sp.base s.m.cur s.log
+  nodup : s.m.cur.Nodup
+  b : s.m.b = sp.b
+
+theorem simx_step {s : XW} {sp : SpecX} (h : SimX s sp) (c : XCmd) (hc : c.wellNamed = true) :
+    SimX (s.cmd c) (sp.step c) := by
+  cases c with
+  | op o =>
+    have hb : (sp.step (.op o)).base = sp.base := by cases o <;> rfl
+    refine ⟨?_, by rw [hb]; exact xinv_step h.inv h.nodup o hc, xnodup_step h.nodup o, ?_⟩
+    · cases o with
+      | add q =>
+        intro x
+        simp only [XW.cmd, XW.step, xw_add_cur, SpecX.step, mem_sinsert, h.cur x]
+      | remove p =>
+        intro x
+        simp only [XW.cmd, XW.step, xw_remove_cur, SpecX.step, List.mem_filter, h.cur x]
+      | bind a n o => exact h.cur
+      | pass => exact h.cur
+    · cases o with
+      | add q => simp only [XW.cmd, XW.step, xw_add_b, SpecX.step, h.b]
+      | remove p => simp only [XW.cmd, XW.step, xw_remove_b, SpecX.step, h.b]
+      | bind a n o => simp only [XW.cmd, XW.step, Mem.bind, SpecX.step, h.b]
+      | pass => exact h.b
+  | commit =>
+    refine ⟨h.cur, ?_, h.nodup, h.b⟩
+    simp only [XW.cmd, XW.commit, SpecX.step]
+    exact (inv_begin s.m.cur).congr_init h.cur
+  | rollback =>
+    have hr : SetEq (s.cmd .rollback).m.cur sp.base := by
+      simp only [XW.cmd, XW.rollback, replayMem_cur]
+      exact replay_restores h.inv
+    refine ⟨hr, ?_, ?_, ?_⟩
+    · simp only [SpecX.step]
+      exact (inv_begin sp.base).congr hr.symm
+    · simp only [XW.cmd, XW.rollback, replayMem_cur]
+      exact nodup_replay' _ _ h.nodup
+    · simp only [XW.cmd, XW.rollback, replayMem_b, SpecX.step, h.b]
+
+theorem simx_run (cs : List XCmd) : ∀ (s : XW) (sp : SpecX), SimX s sp → (∀ c ∈ cs, c.wellNamed = true) →
+    SimX (s.run cs) (sp.run cs) := by
+  induction cs with
+  | nil => intro s sp h _; exact h
+  | cons c cs ih =>
+    intro s sp h hw
+    exact ih _ _ (simx_step h c (hw c (by simp))) (fun c' hc' => hw c' (by simp [hc']))
+
+theorem code_history_refines_spec : Statement_code_history_refines_spec := by
+  intro m0 cs hnd hw
+  have h := simx_run cs ⟨m0, []⟩ ⟨m0.cur, m0.cur, m0.b⟩ ⟨SetEq.refl _, inv_begin _, hnd, rfl⟩ hw
+  exact ⟨h.cur, h.b⟩
+
+theorem code_rollback_restores : Statement_code_rollback_restores := by
+  intro m0 ops hnd hw
+  have hw' : ∀ c ∈ ops.map XCmd.op, c.wellNamed = true := by
+    intro c hc
+    obtain ⟨o, ho, rfl⟩ := List.mem_map.mp hc
+    exact hw o ho
+  have h := simx_run (ops.map .op) ⟨m0, []⟩ ⟨m0.cur, m0.cur, m0.b⟩ ⟨SetEq.refl _, inv_begin _, hnd, rfl⟩ hw'
+  have hbase : ∀ (os : List XOp) (sp : SpecX), (sp.run (os.map .op)).base = sp.base := by
+    intro os
+    induction os with
+    | nil => intro sp; rfl
+    | cons o os ih =>
+      intro sp
+      simp only [List.map_cons, SpecX.run, List.foldl_cons] at ih ⊢
+      rw [ih]
+      cases o <;> rfl
+  have h2 := simx_step h .rollback rfl
+  have hcur : SetEq (XW.run ⟨m0, []⟩ (ops.map .op)).rollback.m.cur m0.cur := by
+    have := h2.cur
+    simp only [SpecX.step, hbase] at this
+    exact this
+  exact ⟨hcur, rfl, fun p t g => memTriples_congr hcur p t g, fun g => memLen_congr h2.nodup hnd hcur g⟩
+
+theorem code_boundaries_and_frames : Statement_code_boundaries_and_frames := by
+  intro s
+  refine ⟨⟨rfl, rfl⟩, ⟨?_, ?_⟩, fun _ _ _ => ⟨rfl, rfl⟩, rfl, xw_add_b s, xw_remove_b s, ?_⟩
+  · simp [XW.rollback, XW.commit, replayMem]
+  · simp [XW.rollback, replayMem]
+  · simp only [XW.rollback, replayMem_b]
+
+theorem code_model_agrees_with_abstract : Statement_code_model_agrees_with_abstract := by
+  intro init cs hnd hw
+  let f : Cmd → XCmd := fun c => match c with
+    | .op (.add q) => XCmd.op (.add q)
+    | .op (.remove p) => XCmd.op (.remove p)
+    | .commit => XCmd.commit
+    | .rollback => XCmd.rollback
+  have hw' : ∀ c ∈ cs.map f, c.wellNamed = true := by
+    intro c hc
+    obtain ⟨c0, hc0, rfl⟩ := List.mem_map.mp hc
+    have := hw c0 hc0
+    cases c0 with
+    | op o => cases o with
+      | add q => rfl
+      | remove p => exact this
+    | commit => rfl
+    | rollback => rfl
+  have h1 := (code_history_refines_spec { cur := init } (cs.map f) hnd hw').1
+  have h2 := history_refines_spec init cs hnd
+  refine h1.trans (SetEq.trans ?_ h2.symm)
+  have key : ∀ (cs : List Cmd) (a : SpecX) (b : Spec), a.cur = b.cur → a.base = b.base →
+      (a.run (cs.map f)).cur = (b.run cs).cur := by
+    intro cs
+    induction cs with
+    | nil => intro a b h _; exact h
+    | cons c cs ih =>
+      intro a b hc hb
+      simp only [List.map_cons, SpecX.run, Spec.run, List.foldl_cons] at ih ⊢
+      apply ih
+      · cases c with
+        | op o => cases o <;> simp [f, SpecX.step, Spec.step, hc]
+        | commit => simp [f, SpecX.step, Spec.step, hc]
+        | rollback => simp [f, SpecX.step, Spec.step, hb]
+      · cases c with
+        | op o => cases o <;> simp [f, SpecX.step, Spec.step, hb]
+        | commit => simp [f, SpecX.step, Spec.step, hc]
+        | rollback => simp [f, SpecX.step, Spec.step, hb]
+  rw [key cs ⟨init, init, {}⟩ ⟨init, init⟩ rfl rfl]
+  exact SetEq.refl _
+
+/-- The hypothesis on graph names is needed: with a falsy identifier (`0`), `if ctxId:` sends a wildcard
+    remove down the all-graphs branch, which cancels the pending undo entry of a quad of ANOTHER graph
+    although the store call only touches the named graph; rollback then leaves that quad behind.  (No
+    `Graph` carries a falsy identifier: `Graph.__init__` replaces it by a blank node; the harness checks
+    that on every run.) -/
+theorem falsy_graph_name_witness :
+    ¬ SetEq (XW.run ⟨{ cur := [] }, []⟩
+        [.op (.add (1, 2, 3, 5)), .op (.remove (some 1, none, none, some 0)), .rollback]).m.cur [] := by
+  intro h
+  have := (h (1, 2, 3, 5)).1 (by decide)
+  cases this
+
+/-- What the code does with bindings: a `bind` inside a transaction survives `rollback()`. -/
+theorem binding_survives_rollback :
+    (XW.run ⟨{ cur := [] }, []⟩ [.op (.bind 1 7 true), .op (.add (1, 2, 3, 5)), .rollback]).m
+      = { cur := [], ctxs := [5], b := { ns := [(1, 7)], pf := [(7, 1)] } } := by decide
+
+/-- non-vacuity: a history through all three branches of `remove`, an early return, a bind, a commit -/
+example :
+    let cs : List XCmd :=
+      [.op (.remove (some 1, none, none, some 9)), .op (.add (1, 2, 3, 9)), .op (.bind 1 7 false),
+       .op (.remove (none, some 2, none, none)), .op (.remove (some 4, some 4, some 4, some 4)), .op (.add (7, 7, 7, 8)), .commit,
+       .op (.remove (some 7, some 7, some 7, some 8)), .op .pass, .rollback]
+    (XW.run ⟨{ cur := [(1, 2, 3, 9), (4, 2, 3, 8)] }, []⟩ cs).m.cur = [(7, 7, 7, 8)]
+    ∧ (∀ c ∈ cs, c.wellNamed = true) := by decide
+
+/-! ### A wrapper over a wrapper -/
+
+def NCmd.outerView : NCmd → Option XCmd
+  | .op o => some (.op o)
+  | .commitOut => some .commit
+  | .rollbackOut => some .rollback
+  | .commitIn => none
+  | .rollbackIn => none
+
+def NCmd.wellNamed : NCmd → Bool
+  | .op o => o.wellNamed
+  | _ => true
+
+def NCmd.isRollbackIn : NCmd → Bool
+  | .rollbackIn => true
+  | _ => false
+
+def NCmd.innerBoundary : NCmd → Bool
+  | .commitIn => true
+  | .rollbackIn => true
+  | _ => false
+
+/-- The outer transaction of `AuditableStore(AuditableStore(store))`: whatever the inner wrapper has
+    pending at the start and whenever it commits in between, the outer wrapper is atomic — every history
+    of operations through the outer wrapper with outer commits / rollbacks anywhere refines the snapshot
+    specification (in particular: outer rollback after inner commit restores the outer beginning). -/
+def Statement_nested_outer_refines_spec : Prop :=
+  ∀ (m0 : Mem) (logIn0 : List Entry) (cs : List NCmd), m0.cur.Nodup →
+    (∀ c ∈ cs, c.wellNamed = true) → (∀ c ∈ cs, c.isRollbackIn = false) →
+    SetEq (Nest.run ⟨m0, logIn0, []⟩ cs).m.cur
+      (SpecX.run ⟨m0.cur, m0.cur, m0.b⟩ (cs.filterMap NCmd.outerView)).cur
+
+/-- The inner transaction: everything the outer wrapper does — its operations, its commits, the replay
+    of its log by its rollback — reaches the inner wrapper as ordinary adds and removes, so an inner
+    rollback restores the content of the inner transaction's beginning, outer boundaries notwithstanding
+    and whatever the outer log held at that moment. -/
+def Statement_nested_inner_rollback_restores : Prop :=
+  ∀ (m0 : Mem) (logOut0 : List Entry) (cs : List NCmd), m0.cur.Nodup →
+    (∀ c ∈ cs, c.wellNamed = true) → (∀ c ∈ cs, c.innerBoundary = false) →
+    SetEq ((Nest.run ⟨m0, [], logOut0⟩ cs).cmd .rollbackIn).m.cur m0.cur
+
+structure SimN (n : Nest) (sp : SpecX) : Prop where
+  cur : SetEq n.m.cur sp.cur
+  inv : Inv sp.base n.m.cur n.logOut
+  nodup : n.m.cur.Nodup
+
+theorem simn_step {n : Nest} {sp : SpecX} (h : SimN n sp) (c : NCmd) (hc : c.wellNamed = true)
+    (hr : c.isRollbackIn = false) :
+    SimN (n.cmd c) (match c.outerView with | some xc => sp.step xc | none => sp) := by
+  cases c with
+  | op o =>
+    cases o with
+    | add q =>
+      refine ⟨?_, nest_outer_inv_add h.inv q, by simp only [Nest.cmd, nest_add_cur]; exact nodup_sinsert h.nodup⟩
+      intro x
+      simp only [Nest.cmd, nest_add_cur, NCmd.outerView, SpecX.step, mem_sinsert, h.cur x]
+    | remove p =>
+      refine ⟨?_, nest_outer_inv_remove h.inv h.nodup p hc, by simp only [Nest.cmd, nest_remove_cur]; exact h.nodup.filter _⟩
+      intro x
+      simp only [Nest.cmd, nest_remove_cur, NCmd.outerView, SpecX.step, List.mem_filter, h.cur x]
+    | bind a b o => exact ⟨h.cur, h.inv, h.nodup⟩
+    | pass => exact ⟨h.cur, h.inv, h.nodup⟩
+  | commitOut =>
+    refine ⟨h.cur, ?_, h.nodup⟩
+    simp only [Nest.cmd, NCmd.outerView, SpecX.step]
+    exact (inv_begin n.m.cur).congr_init h.cur
+  | rollbackOut =>
+    have hcur : (n.cmd .rollbackOut).m.cur = replay n.m.cur n.logOut := by
+      simp only [Nest.cmd, withInner_m, replayInner_cur, inner_m]
+    have hr : SetEq (n.cmd .rollbackOut).m.cur sp.base := by rw [hcur]; exact replay_restores h.inv
+    refine ⟨hr, ?_, by rw [hcur]; exact nodup_replay' _ _ h.nodup⟩
+    simp only [NCmd.outerView, SpecX.step]
+    exact (inv_begin sp.base).congr hr.symm
+  | commitIn => exact ⟨h.cur, h.inv, h.nodup⟩
+  | rollbackIn => cases hr
+
+theorem simn_run (cs : List NCmd) : ∀ (n : Nest) (sp : SpecX), SimN n sp →
+    (∀ c ∈ cs, c.wellNamed = true) → (∀ c ∈ cs, c.isRollbackIn = false) →
+    SimN (n.run cs) (sp.run (cs.filterMap NCmd.outerView)) := by
+  induction cs with
+  | nil => intro n sp h _ _; exact h
+  | cons c cs ih =>
+    intro n sp h hw hr
+    have h1 := simn_step h c (hw c (by simp)) (hr c (by simp))
+    have hw' : ∀ c' ∈ cs, c'.wellNamed = true := fun c' hc' => hw c' (by simp [hc'])
+    have hr' : ∀ c' ∈ cs, c'.isRollbackIn = false := fun c' hc' => hr c' (by simp [hc'])
+    cases hv : c.outerView with
+    | none =>
+      rw [hv] at h1
+      simp only [List.filterMap_cons, hv, Nest.run, List.foldl_cons]
+      exact ih _ _ h1 hw' hr'
+    | some xc =>
+      rw [hv] at h1
+      simp only [List.filterMap_cons, hv, Nest.run, SpecX.run, List.foldl_cons]
+      exact ih _ _ h1 hw' hr'
+
+theorem nested_outer_refines_spec : Statement_nested_outer_refines_spec := by
+  intro m0 logIn0 cs hnd hw hr
+  exact (simn_run cs ⟨m0, logIn0, []⟩ ⟨m0.cur, m0.cur, m0.b⟩ ⟨SetEq.refl _, inv_begin _, hnd⟩ hw hr).cur
+
+theorem nested_inner_step {base : List Quad} {n : Nest} (h : Inv base n.m.cur n.logIn) (hnd : n.m.cur.Nodup)
+    (c : NCmd) (hc : c.wellNamed = true) (hb : c.innerBoundary = false) :
+    Inv base (n.cmd c).m.cur (n.cmd c).logIn ∧ (n.cmd c).m.cur.Nodup := by
+  cases c with
+  | op o =>
+    cases o with
+    | add q => exact ⟨nest_inner_inv_add h q, by simp only [Nest.cmd, nest_add_cur]; exact nodup_sinsert hnd⟩
+    | remove p =>
+      exact ⟨nest_inner_inv_remove h hnd p hc, by simp only [Nest.cmd, nest_remove_cur]; exact hnd.filter _⟩
+    | bind a b o => exact ⟨h, hnd⟩
+    | pass => exact ⟨h, hnd⟩
+  | commitOut => exact ⟨h, hnd⟩
+  | rollbackOut =>
+    refine ⟨replayInner_inv (base := base) n.logOut n.inner h hnd, ?_⟩
+    simp only [Nest.cmd, withInner_m, replayInner_cur, inner_m]
+    exact nodup_replay' _ _ hnd
+  | commitIn => cases hb
+  | rollbackIn => cases hb
+
+theorem nested_inner_rollback_restores : Statement_nested_inner_rollback_restores := by
+  intro m0 logOut0 cs hnd hw hb
+  have key : ∀ (cs : List NCmd) (n : Nest), Inv m0.cur n.m.cur n.logIn → n.m.cur.Nodup →
+      (∀ c ∈ cs, c.wellNamed = true) → (∀ c ∈ cs, c.innerBoundary = false) →
+      Inv m0.cur (n.run cs).m.cur (n.run cs).logIn := by
+    intro cs
+    induction cs with
+    | nil => intro n h _ _ _; exact h
+    | cons c cs ih =>
+      intro n h hn hw hb
+      have h1 := nested_inner_step h hn c (hw c (by simp)) (hb c (by simp))
+      exact ih _ h1.1 h1.2 (fun c' hc' => hw c' (by simp [hc'])) (fun c' hc' => hb c' (by simp [hc']))
+  have h := key cs ⟨m0, [], logOut0⟩ (inv_begin _) hnd hw hb
+  simp only [Nest.cmd, withInner_m, XW.rollback, replayMem_cur, inner_m, inner_log]
+  exact replay_restores h
+
+/-- non-vacuity: outer add, inner commit, outer pattern remove, outer rollback (restores the outer
+    beginning), then inner rollback (restores the inner beginning = after its commit) -/
+example :
+    (Nest.run ⟨{ cur := [(1, 2, 3, 9)] }, [], []⟩
+      [.op (.add (4, 5, 6, 8)), .commitIn, .op (.remove (none, none, none, some 9)), .rollbackOut]).m.cur
+        = [(1, 2, 3, 9)]
+    ∧ (Nest.run ⟨{ cur := [(1, 2, 3, 9)] }, [], []⟩
+      [.op (.add (4, 5, 6, 8)), .commitIn, .op (.remove (none, none, none, some 9)), .rollbackOut, .rollbackIn]).m.cur
+        = [(1, 2, 3, 9), (4, 5, 6, 8)] := by decide
+
+/-! ### The graph names the wrapped store knows (`contexts()`) -/
+
+/-- What the code does with `Memory.__all_contexts` (the answer of `contexts()`): over every history,
+    every graph that holds a quad is known, no name is ever forgotten, and `rollback()` / `commit()`
+    change nothing about the known names — in particular a rollback teaches the store no new name
+    (every quad it re-adds goes into a graph the store already knows). -/
+def Statement_contexts_kept_by_rollback : Prop :=
+  ∀ (m0 : Mem) (cs : List XCmd), (∀ q ∈ m0.cur, q.graph ∈ m0.ctxs) →
+    let s := XW.run ⟨m0, []⟩ cs
+    s.rollback.m.ctxs = s.m.ctxs ∧ s.commit.m.ctxs = s.m.ctxs ∧
+    (∀ g ∈ m0.ctxs, g ∈ s.m.ctxs) ∧ (∀ q ∈ s.m.cur, q.graph ∈ s.m.ctxs)
+
+theorem contexts_kept_by_rollback : Statement_contexts_kept_by_rollback := by
+  intro m0 cs h0
+  have h := known_run cs ⟨m0, []⟩ m0.ctxs ⟨h0, by simp⟩ (fun g hg => hg)
+  exact ⟨replayMem_ctxs _ _ h.1.log, rfl, h.2, h.1.cur⟩
+
+/-- …and what it does NOT do: a graph name first used inside the transaction stays known (as an empty
+    graph) after `rollback()`.  The property speaks of triples; `contexts()` of a graph-aware store is
+    not transactional. -/
+theorem new_graph_name_survives_rollback :
+    (XW.run ⟨{ cur := [] }, []⟩ [.op (.add (1, 2, 3, 5)), .rollback]).m = { cur := [], ctxs := [5] } := by
+  decide
+
+/-! ### Two wrappers side by side, code-shaped model -/
+
+/-- `two_wrappers_disjoint` over the code of `auditable.py` and the extended operation set: every
+    interleaving of two wrappers whose operations touch statically disjoint territories (binds and
+    pass-through calls touch nothing); rolling wrapper `i` back leaves exactly what the other wrapper's
+    operations alone produce from the initial content. -/
+def Statement_code_two_wrappers_disjoint : Prop :=
+  ∀ (m0 : Mem) (i : Bool) (T : Quad → Bool) (ops : List (Bool × XOp)), m0.cur.Nodup →
+    (∀ jo ∈ ops, jo.2.wellNamed = true) →
+    (∀ jo ∈ ops, ∀ q, jo.2.touches q = true → (T q = true ↔ jo.1 = i)) →
+    SetEq (((X2.run ⟨m0, [], []⟩ ops).rollback i).m.cur)
+          ((XW.run ⟨m0, []⟩ (((ops.filter (fun jo => jo.1 != i)).map (·.2)).map .op)).m.cur)
+
+theorem code_two_wrappers_disjoint : Statement_code_two_wrappers_disjoint := by
+  intro m0 i T ops hnd hw hd
+  have h0 : JX T i ⟨m0, [], []⟩ m0.cur :=
+    ⟨by cases i <;> exact inv_begin m0.cur, by cases i <;> simp [X2.w], hnd⟩
+  have h := JX_run ops _ _ h0 hw hd
+  rw [xrun_ops_cur, ← othersImageX_eq]
+  simp only [X2.rollback, x2_put_m, XW.rollback, replayMem_cur]
+  rw [x2_w_m]
+  exact replay_restores h.inv
+
+/-- non-vacuity: wrapper 0 works on subject 1 (two branches of `remove`, a bind), wrapper 1 on subject 2 -/
+example :
+    let ops : List (Bool × XOp) :=
+      [(false, .remove (some 1, none, none, none)), (true, .add (2, 5, 5, 9)), (false, .bind 1 7 true),
+       (false, .add (1, 6, 6, 9)), (true, .remove (some 2, some 2, none, some 9))]
+    (((X2.run ⟨{ cur := [(1, 2, 3, 9), (2, 2, 3, 9)] }, [], []⟩ ops).rollback false).m.cur = [(2, 5, 5, 9), (1, 2, 3, 9)])
+    ∧ (∀ jo ∈ ops, jo.2.wellNamed = true)
+    ∧ (∀ jo ∈ ops, ∀ q, jo.2.touches q = true → ((q.1 == 1) = true ↔ jo.1 = false)) := by
+  refine ⟨by decide, by decide, ?_⟩
+  intro jo hjo q hq
+  simp only [List.mem_cons, List.not_mem_nil, or_false] at hjo
+  rcases hjo with rfl | rfl | rfl | rfl | rfl <;>
+    simp_all [XOp.touches, Pat.matches, matchPos]
+
+/-! ### Operations arriving through `Graph` / `ConjunctiveGraph` / `Store.addN` -/
+
+/-- snapshot specification over graph-level commands: an operation's effect on the set of quads is the
+    fold of its wrapper calls' effects (`curStepX`); what that fold MEANS for each operation is
+    `graph_level_ops_meaning` below. -/
+def SpecX.gstep (s : SpecX) : GCmd → SpecX
+  | .op g => { s with cur := g.expand.foldl curStepX s.cur }
+  | .commit => { s with base := s.cur }
+  | .rollback => { s with cur := s.base }
+
+def SpecX.grun (s : SpecX) (cs : List GCmd) : SpecX := cs.foldl SpecX.gstep s
+
+/-- Every history of graph-level operations (batch adds / `+=` / parser adds, `Graph.set`, `-=`,
+    `remove_context`, a quad carrying a foreign Graph object, single store calls) with boundaries
+    anywhere: the wrapped store holds what the snapshot specification says. -/
+def Statement_graph_level_history_refines_spec : Prop :=
+  ∀ (m0 : Mem) (cs : List GCmd), m0.cur.Nodup → (∀ c ∈ cs, c.wellNamed = true) →
+    SetEq (XW.run ⟨m0, []⟩ (cs.flatMap GCmd.expand)).m.cur (SpecX.grun ⟨m0.cur, m0.cur, m0.b⟩ cs).cur
+
+/-- What each graph-level operation means on a set of quads `c`. -/
+def Statement_graph_level_ops_meaning : Prop :=
+  ∀ (c : List Quad) (x : Quad),
+    (∀ qs, x ∈ (GOp.addN qs).expand.foldl curStepX c ↔ x ∈ qs ∨ x ∈ c) ∧
+    (∀ q, x ∈ (GOp.set q).expand.foldl curStepX c ↔
+      x = q ∨ (x ∈ c ∧ ¬ (x.1 = q.1 ∧ x.2.1 = q.2.1 ∧ x.graph = q.graph))) ∧
+    (∀ qs, x ∈ (GOp.isub qs).expand.foldl curStepX c ↔ x ∈ c ∧ x ∉ qs) ∧
+    (∀ g, x ∈ (GOp.removeContext g).expand.foldl curStepX c ↔ x ∈ c ∧ x.graph ≠ g) ∧
+    (∀ q extra, x ∈ (GOp.addForeign q extra).expand.foldl curStepX c ↔
+      x = q ∨ (∃ t ∈ extra, x = mkQuad t q.graph) ∨ x ∈ c)
+
+theorem specx_run_ops (os : List XOp) : ∀ (sp : SpecX),
+    (sp.run (os.map .op)).cur = os.foldl curStepX sp.cur ∧ (sp.run (os.map .op)).base = sp.base := by
+  induction os with
+  | nil => intro sp; exact ⟨rfl, rfl⟩
+  | cons o os ih =>
+    intro sp
+    simp only [List.map_cons, SpecX.run, List.foldl_cons] at ih ⊢
+    obtain ⟨h1, h2⟩ := ih (sp.step (.op o))
+    refine ⟨?_, ?_⟩
+    · rw [h1]; cases o <;> rfl
+    · rw [h2]; cases o <;> rfl
+
+theorem graph_level_history_refines_spec : Statement_graph_level_history_refines_spec := by
+  intro m0 cs hnd hw
+  have hw' : ∀ x ∈ cs.flatMap GCmd.expand, x.wellNamed = true := by
+    intro x hx
+    obtain ⟨c, hc, hxc⟩ := List.mem_flatMap.mp hx
+    exact gcmd_expand_wellNamed c (hw c hc) x hxc
+  refine (code_history_refines_spec m0 _ hnd hw').1.trans ?_
+  have key : ∀ (cs : List GCmd) (sp sq : SpecX), sp.cur = sq.cur → sp.base = sq.base →
+      (sp.run (cs.flatMap GCmd.expand)).cur = (sq.grun cs).cur := by
+    intro cs
+    induction cs with
+    | nil => intro sp sq h _; exact h
+    | cons c cs ih =>
+      intro sp sq hc hb
+      simp only [List.flatMap_cons, SpecX.run, SpecX.grun, List.foldl_append, List.foldl_cons] at ih ⊢
+      apply ih
+      · cases c with
+        | op g =>
+          have := specx_run_ops g.expand sp
+          simp only [SpecX.run] at this
+          simp only [GCmd.expand, SpecX.gstep, this.1, hc]
+        | commit => simp [GCmd.expand, SpecX.step, SpecX.gstep, hc]
+        | rollback => simp [GCmd.expand, SpecX.step, SpecX.gstep, hb]
+      · cases c with
+        | op g =>
+          have := specx_run_ops g.expand sp
+          simp only [SpecX.run] at this
+          simp only [GCmd.expand, SpecX.gstep, this.2, hb]
+        | commit => simp [GCmd.expand, SpecX.step, SpecX.gstep, hc]
+        | rollback => simp [GCmd.expand, SpecX.step, SpecX.gstep, hb]
+  rw [key cs _ _ rfl rfl]
+  exact SetEq.refl _
+
+theorem graph_level_ops_meaning : Statement_graph_level_ops_meaning := by
+  intro c x
+  refine ⟨fun qs => mem_fold_adds qs c x, ?_, fun qs => mem_fold_removes qs c x, ?_, ?_⟩
+  · intro q
+    obtain ⟨a, b, d, g⟩ := q
+    obtain ⟨a', b', d', g'⟩ := x
+    simp only [GOp.expand, List.foldl_cons, List.foldl_nil, curStepX, mem_sinsert, List.mem_filter,
+      Pat.matches, matchPos, Quad.graph, Bool.and_true, Bool.not_eq_true', Bool.and_eq_false_iff, beq_eq_false_iff_ne,
+      ne_eq, Prod.mk.injEq]
+    constructor
+    · rintro (h | ⟨h1, h2⟩)
+      · exact Or.inl h
+      · refine Or.inr ⟨h1, ?_⟩
+        rintro ⟨e1, e2, e3⟩
+        rcases h2 with (h2 | h2) | h2
+        · exact h2 e1
+        · exact h2 e2
+        · exact h2 e3
+    · rintro (h | ⟨h1, h2⟩)
+      · exact Or.inl h
+      · refine Or.inr ⟨h1, ?_⟩
+        by_cases e1 : a' = a
+        · by_cases e2 : b' = b
+          · exact Or.inr (fun e3 => h2 ⟨e1, e2, e3⟩)
+          · exact Or.inl (Or.inr e2)
+        · exact Or.inl (Or.inl e1)
+  · intro g
+    obtain ⟨a', b', d', g'⟩ := x
+    simp [GOp.expand, curStepX, Pat.matches, matchPos, Quad.graph]
+  · intro q extra
+    simp only [GOp.expand, List.foldl_append, List.foldl_cons, List.foldl_nil, curStepX, mem_sinsert]
+    have h := mem_fold_adds (extra.map (fun t => mkQuad t q.graph)) c x
+    rw [List.map_map] at h
+    have e : (XOp.add ∘ fun t => mkQuad t q.graph) = fun t => XOp.add (mkQuad t q.graph) := rfl
+    rw [e] at h
+    rw [h]
+    simp only [List.mem_map]
+    constructor
+    · rintro (h1 | ⟨t, ht, rfl⟩ | h1)
+      · exact Or.inl h1
+      · exact Or.inr (Or.inl ⟨t, ht, rfl⟩)
+      · exact Or.inr (Or.inr h1)
+    · rintro (h1 | ⟨t, ht, rfl⟩ | h1)
+      · exact Or.inl h1
+      · exact Or.inr (Or.inl ⟨t, ht, rfl⟩)
+      · exact Or.inr (Or.inr h1)
+
+/-! ### The defect fixed in round g (C18-F3), kept as a regression witness.
+    Before the fix the wildcard branch looped over `context.triples(pattern)`.  When the context is a
+    `ConjunctiveGraph` (`cg.remove((None, None, None, cg))`) that lists the matching triples of EVERY
+    graph; each was logged under the context's own name `g`, although the store call only removes from
+    graph `g`.  Rollback then re-added, into `g`, triples that were never there. -/
+
+/-- pre-fix enumeration for a ConjunctiveGraph context: triples of every graph, each paired with `g` -/
+def graphTriplesUnion (cur : List Quad) (p : Pat) (g : Nat) : List Quad :=
+  (memTriples cur p.anyGraph).map (fun tc => mkQuad tc.1 g)
+
+def XW.removeUnionBuggy (s : XW) (p : Pat) (g : Nat) : XW :=
+  ⟨s.m.remove p, logRemovals s.log (graphTriplesUnion s.m.cur p g)⟩
+
+theorem conjunctive_context_broke_rollback :
+    ¬ SetEq ((XW.removeUnionBuggy ⟨{ cur := [(1, 2, 3, 8)] }, []⟩ (none, none, none, some 9) 9).rollback).m.cur
+        [(1, 2, 3, 8)] := by
+  intro h
+  have := (h (1, 2, 3, 9)).1 (by decide)
   revert this
   decide
 
